@@ -181,6 +181,17 @@ theorem wrapTyped_reaches_cause (h : Heap) (v : Val) (hv : isNil v = false) (hr 
   · simp [unwrap, wrapperNode]
   · simp [message, nextOf, msgOf, wrapperNode]
 
+/-- `NewWithCause` (and `NewWithCausef`, which goes through it) keeps a non-nil cause as is and drops a typed-nil one
+    (of `*Error` or of a foreign pointer type): the new error then has no cause, `Unwrap` is the nil interface — so
+    rendering never meets a nil pointer (fix f303e30) -/
+theorem newWithCause_cause (h : Heap) (m : String) (c : Val) :
+    unwrap (newWithCause h m c).1 (newWithCause h m c).2 = (if isNil c then .nilIface else c) ∧
+    message (newWithCause h m c).1 h.size = m ∧
+    (∀ i, i < h.size → (newWithCause h m c).1[i]? = h[i]?) := by
+  refine ⟨by simp [newWithCause, unwrap], by simp [newWithCause, message, nextOf, msgOf], ?_⟩
+  intro i hi
+  simp [newWithCause, Array.getElem?_push, Nat.ne_of_lt hi]
+
 /-- the constructors keep the heap invariant (`New`, `NewWithCause`, `&Error{}`, `Wrap`, `WrapTyped`) -/
 theorem constructors_wf (h : Heap) (hwf : WF h) (m : String) (c v : Val) :
     WF (new h m).1 ∧ WF (newWithCause h m c).1 ∧ WF (newEmpty h).1 ∧ WF (wrap h v).1 ∧ WF (wrapTyped h v).1 :=
